@@ -20,7 +20,8 @@ RULE = (
     "warning; (unsupported) a document carrying an Unsupported child's tag converts without error or unknown-tag warning; "
     "(group) every exclusivity group names declared, non-repeated, optional children and two members (resp. none) are rejected "
     "in every inheriting class; (maximal) for classes with repeated children a maximal instance (all children, >=1 member of "
-    "every list type, interleaved within a list group) is accepted by the library's own reader.  Each obligation is a distinct "
+    "every list type, interleaved within a list group) is accepted by the library's own reader; every element probe is repeated "
+    "with falsy (0, False, '0', 0.00) and negative values.  Each obligation is a distinct "
     "(class, child, obligation) triple; all are non-trivial"
 )
 ASSUMPTIONS = ["values for the probes come from the harness's minimal-instance builder", "rejected = any Exception"]
